@@ -568,8 +568,13 @@ int main(void) {
 			KSI_free(before); KSI_free(after); KSI_Signature_free(ext); KSI_Signature_free(sig);
 		} else if (!strcmp(tok[0], "HANEW")) {
 			int rc, k, nep = atoi(tok[1]);
-			free_all(); reset_net();
-			KSI_CTX_new(&ctx);
+			/* HANEW <endpoints> <N> <snd> <rcv> <maxreq> <con> [x|-] [same]: `same` = the previous service is freed (with whatever is outstanding) but the new
+			 * one lives in the SAME KSI_CTX -- a fresh service must not inherit anything from an earlier one of its context */
+			if (n > 8 && !strcmp(tok[8], "same") && ctx != NULL && as != NULL) {
+				int i2; for (i2 = 0; i2 < MAXH; i2++) { if (owned[i2]) KSI_AsyncHandle_free(held[i2]); held[i2] = NULL; owned[i2] = 0; KSI_AsyncHandle_free(kept[i2]); kept[i2] = NULL; }
+				KSI_AsyncService_free(as); as = NULL; nsvc = 0; memset(svc, 0, sizeof(svc)); for (i2 = 0; i2 < MAXH; i2++) xs_free(i2);
+				reset_net();
+			} else { free_all(); reset_net(); KSI_CTX_new(&ctx); }
 			extending = (n > 7 && !strcmp(tok[7], "x"));
 			rc = extending ? KSI_ExtendingHighAvailabilityService_new(ctx, &as) : KSI_SigningHighAvailabilityService_new(ctx, &as);
 			for (k = 0; k < nep && rc == KSI_OK; k++) { char uri[64]; snprintf(uri, sizeof(uri), "ksi+tcp://h%d.example:1", k); rc = KSI_AsyncService_addEndpoint(as, uri, cred_user, cred_key); }
